@@ -21,6 +21,13 @@ theorem orm_model_handlers :
     ∧ OrmTables.djangoHandlers.filter (fun h => !djangoGeoHandlers.contains h) = ormHandlers
     ∧ OrmTables.djangoHandlers.filter (fun h => djangoGeoHandlers.contains h) = djangoGeoHandlers := by decide +kernel
 
+/-- the positional-argument counts the model's `djArityOk` accepts are those of the handlers' signatures (re-extracted with `inspect.signature`), and
+    `visit_Call` binds the arguments against the signature before calling the handler (fix cf3d3cd) -/
+theorem orm_django_arities_tie :
+    (Generated.Orm.djangoHandlerArities.filter (fun r => !djangoGeoHandlers.contains r.1)).all
+      (fun r => (List.range 8).all (fun n => djArityOk r.1 n == (decide (r.2.1 ≤ n) && decide (n ≤ r.2.2)))) = true
+    ∧ Generated.Orm.djangoCallBindsFirst = true := by decide +kernel
+
 /-- every literal handler of both backends wraps the value in a bound parameter (`Value(…)` / `literal(…)`), except
     the inline constants of SQLAlchemy (null / true / false) and lists (element-wise) -/
 theorem orm_literals_are_parameters :
